@@ -80,3 +80,12 @@ if not os.environ.get("VERIF_NO_CACHE_LOCK"):
         _patch(sys.modules["numba.core.caching"])
     else:
         sys.meta_path.insert(0, _Finder())
+
+# line coverage of the library under the checks (tools/coverage_run.sh): only when explicitly requested
+if os.environ.get("COVERAGE_PROCESS_START"):
+    try:
+        import coverage
+
+        coverage.process_startup()
+    except Exception:  # noqa: BLE001
+        pass
